@@ -5,6 +5,7 @@ import (
 	"testing"
 
 	"github.com/tsawler/tabula"
+	"github.com/tsawler/tabula/model"
 )
 
 func xlsxOf(t *testing.T, sheetData string) string {
@@ -55,5 +56,48 @@ func TestXlsxTextGridSurvivesLineBreaksInCells(t *testing.T) {
 	}
 	if !strings.Contains(lines[1], "line1") || !strings.Contains(lines[1], "line2") || !strings.Contains(lines[1], "inside") {
 		t.Errorf("row 2 lost text: %q", lines[1])
+	}
+}
+
+// C17 / R17.15: the header row of the Markdown table and the whole document model copied Cell.Value without looking at
+// the merge state, so a covered cell of a merged region that still holds a value in the file showed it.
+func TestXlsxCoveredCellsAreBlankEverywhere(t *testing.T) {
+	sheet := `<row r="1"><c r="A1" t="inlineStr"><is><t>top</t></is></c><c r="B1" t="inlineStr"><is><t>STALE1</t></is></c></row>`+
+		`<row r="2"><c r="A2" t="inlineStr"><is><t>left</t></is></c><c r="B2" t="inlineStr"><is><t>b2</t></is></c></row>`+
+		`<row r="3"><c r="A3" t="inlineStr"><is><t>STALE3</t></is></c><c r="B3" t="inlineStr"><is><t>b3</t></is></c></row>`
+	p := zipOf(t, "d.xlsx", [][2]string{
+		{"[Content_Types].xml", `<?xml version="1.0"?><Types xmlns="http://schemas.openxmlformats.org/package/2006/content-types"><Default Extension="xml" ContentType="application/xml"/><Default Extension="rels" ContentType="application/vnd.openxmlformats-package.relationships+xml"/><Override PartName="/xl/workbook.xml" ContentType="application/vnd.openxmlformats-officedocument.spreadsheetml.sheet.main+xml"/><Override PartName="/xl/worksheets/sheet1.xml" ContentType="application/vnd.openxmlformats-officedocument.spreadsheetml.worksheet+xml"/></Types>`},
+		{"_rels/.rels", `<?xml version="1.0"?><Relationships xmlns="http://schemas.openxmlformats.org/package/2006/relationships"><Relationship Id="rId1" Type="http://schemas.openxmlformats.org/officeDocument/2006/relationships/officeDocument" Target="xl/workbook.xml"/></Relationships>`},
+		{"xl/workbook.xml", `<?xml version="1.0"?><workbook xmlns="http://schemas.openxmlformats.org/spreadsheetml/2006/main" xmlns:r="http://schemas.openxmlformats.org/officeDocument/2006/relationships"><sheets><sheet name="S" sheetId="1" r:id="rId1"/></sheets></workbook>`},
+		{"xl/_rels/workbook.xml.rels", `<?xml version="1.0"?><Relationships xmlns="http://schemas.openxmlformats.org/package/2006/relationships"><Relationship Id="rId1" Type="http://schemas.openxmlformats.org/officeDocument/2006/relationships/worksheet" Target="worksheets/sheet1.xml"/></Relationships>`},
+		{"xl/worksheets/sheet1.xml", `<?xml version="1.0"?><worksheet xmlns="http://schemas.openxmlformats.org/spreadsheetml/2006/main"><sheetData>` + sheet + `</sheetData><mergeCells count="2"><mergeCell ref="A1:B1"/><mergeCell ref="A2:A3"/></mergeCells></worksheet>`},
+	})
+	md, _, err := tabula.Open(p).ToMarkdown()
+	if err != nil {
+		t.Fatal(err)
+	}
+	if strings.Contains(md, "STALE") {
+		t.Errorf("Markdown shows the value of a covered cell: %q", md)
+	}
+	doc, _, err := tabula.Open(p).Document()
+	if err != nil {
+		t.Fatal(err)
+	}
+	for _, pg := range doc.Pages {
+		for _, e := range pg.Elements {
+			if tb, ok := e.(*model.Table); ok {
+				for _, r := range tb.Rows {
+					for _, c := range r {
+						if strings.Contains(c.Text, "STALE") {
+							t.Errorf("the document model shows the value of a covered cell: %q", c.Text)
+						}
+					}
+				}
+			}
+		}
+	}
+	txt, _, _ := tabula.Open(p).Text()
+	if strings.Contains(txt, "STALE") || !strings.Contains(txt, "top") || !strings.Contains(txt, "left") {
+		t.Errorf("text: %q", txt)
 	}
 }
